@@ -561,7 +561,16 @@ pub fn execute_c09(scn: &W4Scn, run_dir: &str) -> RunOutcome {
             }
             stats.probe("seeds_differ_checked");
             // pairwise: the two neighbouring seeds (wrapping around the ends of the u64 domain) each give a different run
-            for (name, s2) in [("seed+1", seed.wrapping_add(1)), ("seed-1", seed.wrapping_sub(1))] {
+            // ... and so do seeds that differ from it in exactly one bit (top bit, the 32-bit boundary, a seed-chosen bit)
+            let kbit = (seed ^ (seed >> 17) ^ scn.cfg.n_steps) % 64;
+            for (name, s2) in [
+                ("seed+1", seed.wrapping_add(1)),
+                ("seed-1", seed.wrapping_sub(1)),
+                ("seed^2^63", seed ^ (1 << 63)),
+                ("seed^2^32", seed ^ (1 << 32)),
+                ("seed^2^31", seed ^ (1 << 31)),
+                ("seed^2^k", seed ^ (1u64 << kbit)),
+            ] {
                 let dk = guard(|| sim_shipped(scn, s2, false)).map_err(|m| v(scn, "agent-abort", "sim_runner", "no abort".into(), m))?;
                 if dk == d1 {
                     return Err(v(scn, "nondeterministic", &format!("digest(seed {}) vs digest({} = {})", seed, name, s2), "different runs".into(), "identical runs".into())
